@@ -83,6 +83,8 @@ var hostile = []string{
 	"penaltybox", "penaltybox p", "penaltybox p {", "ratecounter r {", "import", "import x", "include", `include "x"`, "include x;",
 	"sub f { if", "sub f { if (", "sub f { if (a", "sub f { if (a)", "sub f { if (a) {", "sub f { if (a) {} else", "sub f { if (a) {} else if", "sub f { if (a) {} elseif (",
 	"sub f { switch", "sub f { switch (", "sub f { switch (a) {", "sub f { switch (a) { case", `sub f { switch (a) { case "1"`, `sub f { switch (a) { case "1":`, `sub f { switch (a) { case "1": break`,
+	`sub f { switch (a) { case "1": } }`, `sub f { switch (a) { default: } }`, `sub f { switch (a) { case "1": case "2": } }`, `sub f { switch (a) { } }`, `sub f { switch (a) { case "1": break; case "2": } }`,
+	`sub f { switch (a) { case "1": esi; } }`, `sub f { switch (a) { case "1": fallthrough; } }`, `sub f() {}`, `sub f() STRING { return "x"; }`, `sub f()`, `sub f( ) { }`, `call f();`, `sub f { call g(); }`,
 	`sub f { switch (a) { default: default: } }`, `sub f { switch (a) { case "1": break; case "1": break; } }`, "sub f { switch (a) { case ~", "sub f { switch (a) { fallthrough; } }",
 	"sub f { return", "sub f { return (", "sub f { return (a", "sub f { return a", "sub f { error", "sub f { error 1", "sub f { error 1 2", "sub f { error;", "sub f { error; }",
 	"sub f { log", `sub f { log "a"`, "sub f { synthetic", "sub f { synthetic.base64", "sub f { esi", "sub f { restart", "sub f { goto", "sub f { goto x", "sub f { x:", "sub f { x", "sub f { x(", "sub f { x(1", "sub f { x(1,", "sub f { x(1,)",
@@ -169,6 +171,15 @@ func gen(g *fw.GenCtx) {
 	}
 	for _, h := range hostile {
 		e.add("hostile", h)
+	}
+	// long strings that are valid by construction: plain and named delimiters, bodies around the 4096-byte
+	// read buffer of the lexer and beyond; the mutator name carries the delimiter and the body length
+	for _, delim := range []string{"", "xyz", "HTML", "a1"} {
+		for _, n := range []int{0, 1, 100, 4000, 4080, 4090, 4096, 4100, 5000, 8192, 9000, 70000} {
+			body := strings.Repeat("abcdefghi\n", n/10+1)[:n]
+			e.add(fmt.Sprintf("longstr|%s|%d", delim, n), "sub f { set req.http.X = {"+delim+"\""+body+"\""+delim+"}; }\n")
+			e.add(fmt.Sprintf("longstr|%s|%d", delim, n), "synthetic {"+delim+"\""+body+"\""+delim+"};\nset req.http.After = \"1\";\n")
+		}
 	}
 	// numeric literal forms: every count spelling x every RTIME unit (and none) x contexts. The
 	// mutator name carries the expected token: litform|<TYPE>|<literal>
@@ -372,6 +383,13 @@ func checkToken(m *srcMap, t token.Token, synthesized bool) *violation {
 		want = "\n"
 	case token.STRING:
 		want = `"`
+	case token.ILLEGAL:
+		// a string that is not closed before the end of the input is delivered as an ILLEGAL token whose
+		// literal is the text behind the opening quote
+		want = t.Literal
+		if got, ok := m.at(t.Line, t.Position, 1); ok && got == `"` && !strings.HasPrefix(t.Literal, `"`) {
+			want = `"`
+		}
 	case token.OPEN_LONG_STRING:
 		want = "{" + t.Literal + `"`
 	default:
@@ -442,6 +460,13 @@ func run(c fw.Case) fw.Outcome {
 		oc.Evals++
 		oc.Tag("mut:" + in.Mut)
 		viols, ntok := checkOne(src, &oc)
+		if strings.HasPrefix(in.Mut, "longstr|") {
+			if v := checkLongStr(in.Mut, string(src)); v != nil {
+				viols = append(viols, *v)
+			} else {
+				oc.Tag("longstr:ok")
+			}
+		}
 		if strings.HasPrefix(in.Mut, "litform|") {
 			if v := checkLitForm(in.Mut, string(src)); v != nil {
 				viols = append(viols, *v)
@@ -596,6 +621,9 @@ func checkOne(src []byte, oc *fw.Outcome) (viols []violation, ntok int) {
 			if what := unbalanced(src); what != "" {
 				add(&violation{"accept:unbalanced-" + what + "/" + e.name, fmt.Sprintf("%s returned a tree and no error although the %s of the input do not balance", e.name, what)})
 			}
+			if unterminatedString(src, m) {
+				add(&violation{"accept:unterminated-string/" + e.name, e.name + " returned a tree and no error although the input ends inside a double-quoted string"})
+			}
 			continue
 		}
 		pe, ok := errors.Cause(err).(*parser.ParseError)
@@ -710,4 +738,73 @@ func unitOf(lit string) string {
 		u += "+fraction"
 	}
 	return u
+}
+
+// checkLongStr: a long string that is valid by construction parses (as a file or as a snippet), and the
+// token that closes it carries the delimiter that was written.
+func checkLongStr(mut, src string) *violation {
+	parts := strings.SplitN(mut, "|", 3)
+	delim := parts[1]
+	l := lexer.NewFromString(src)
+	closed := false
+	for i := 0; i < len(src)+4; i++ {
+		t := l.NextToken()
+		if t.Type == token.EOF {
+			break
+		}
+		if t.Type == token.CLOSE_LONG_STRING {
+			closed = true
+			if t.Literal != delim {
+				return &violation{"longstr:close-delimiter/" + sizeClass(parts[2]), fmt.Sprintf("the CLOSE_LONG_STRING token of a %s-byte long string with delimiter %q carries the literal %q", parts[2], delim, t.Literal)}
+			}
+		}
+	}
+	if !closed {
+		return &violation{"longstr:not-closed/" + sizeClass(parts[2]), fmt.Sprintf("no CLOSE_LONG_STRING token for a %s-byte long string with delimiter %q", parts[2], delim)}
+	}
+	var err error
+	pn, msg, _ := fw.Guard(func() { _, err = parser.New(lexer.NewFromString(src)).ParseVCLOrSnippet() })
+	if pn {
+		return nil // reported by the panic monitor
+	}
+	_ = msg
+	if err != nil {
+		return &violation{"longstr:rejected/" + sizeClass(parts[2]), fmt.Sprintf("a %s-byte long string with delimiter %q, valid by construction, is rejected: %v", parts[2], delim, err)}
+	}
+	return nil
+}
+
+func sizeClass(n string) string {
+	if len(n) >= 4 {
+		return ">=1000-bytes"
+	}
+	return "<1000-bytes"
+}
+
+// unterminatedString: a STRING token (up to the first EOF token, pragma / control lines exempt) behind
+// whose opening quote the source has no closing quote.
+func unterminatedString(src []byte, m *srcMap) bool {
+	l := lexer.NewFromString(string(src))
+	for i := 0; i < len(src)+4; i++ {
+		t := l.NextToken()
+		switch t.Type {
+		case token.EOF:
+			return false
+		case token.PRAGMA, token.FASTLY_CONTROL:
+			return false
+		case token.STRING:
+			// rune position -> the rest of the input behind the token start
+			if t.Line < 1 || t.Line > len(m.lines) || t.Position < 1 || t.Position > len(m.lines[t.Line-1]) || m.lines[t.Line-1][t.Position-1] != '"' {
+				continue // the inner token of a long string, or a position the other monitors judge
+			}
+			rest := string(m.lines[t.Line-1][t.Position:])
+			for _, ln := range m.lines[t.Line:] {
+				rest += "\n" + string(ln)
+			}
+			if !strings.Contains(rest, "\"") {
+				return true
+			}
+		}
+	}
+	return false
 }
